@@ -249,7 +249,16 @@ Fixpoint read_chunks_fuel (fuel : nat) (k : Z) (rest prepend : list Z) : option 
   | S f =>
       let raw := firstn (Z.to_nat k) rest in
       let rest' := skipn (Z.to_nat k) rest in
-      if len raw =? 0 then Some []                           (* read_chunk -> None -> empty -> stream ends *)
+      if len raw =? 0 then
+        (* nothing more to read.  No pending tail: read_chunk -> None -> empty -> stream ends.  A pending tail
+           (previous read ended exactly at the end of the stream) is parsed once more with a newline appended *)
+        match prepend with
+        | [] => Some []
+        | _ => match from_raw_buffer (add_newline prepend) with
+               | None => None
+               | Some b => match bf_starts b with [] => Some [] | _ => Some [b] end
+               end
+        end
       else
         let finished := len raw <? k in
         let chunk := prepend ++ (if finished then add_newline raw else raw) in
